@@ -1,11 +1,65 @@
 (* C08 -- An unedited Pretext map reproduces the input assembly.
-   Only statements, each closed by [exact] of a lemma from Proofs/.  PARTIAL:
-   proved here are the ingredients that make a null map a no-op for each
-   scaffold; the end-to-end identity (names, order, single primary assembly,
-   zero statistics) is decided by the correspondence of the whole pipeline
-   model and the oracle on every run. *)
+   Only statements, each closed by [exact] of a lemma from Proofs/.  The first
+   theorem is the property end to end through the whole pipeline model; the
+   others are the ingredients it is built from. *)
 From Tola Require Import Py.Base Model.Fragment Model.Scaffold Model.Lookup Model.OverlapResult
   Model.Namer Model.Remap Proofs.NullMapAndCuts Proofs.Junctions.
+From Tola Require Proofs.NullMap.
+From Coq Require Import Permutation.
+
+(* END TO END.  [null_map n d input ptx]: the Pretext map presents input
+   scaffolds whole, forward, unpainted and untagged, each as a bait [1, E]
+   whose end E reaches into the scaffold's last row and falls short of (or
+   overshoots) the scaffold end by less than one texel n/d; any subset of the
+   scaffolds may be absent from the map (not only sub-texel ones).  For every
+   such map over every input of well-formed scaffolds (sc_ok: non-empty, first
+   and last rows fragments, positive lengths, untagged stranded contigs, no
+   haplotype prefix in the names) with distinct scaffold names and distinct
+   contigs, for every texel size: remapping succeeds, the ONLY output assembly
+   is the primary one, it is flagged curated, cuts = breaks = joins = 0, every
+   per-assembly count is (0, 0), and its scaffolds are exactly the input's
+   (same names; same fragments, gaps, order and orientation of rows -- row
+   ids, the model's stand-in for Python object identity, erased), unplaced
+   (rank 3), untagged, without haplotype. *)
+Theorem C08_null_map_identity : forall g prefix n d input ptx,
+  0 <= n -> 0 < d -> input <> [] ->
+  NoDup (map fst input) -> Forall Proofs.NullMap.sc_ok input ->
+  NoDup (map key_of (flat_map (fun p => frags_of (snd p)) input)) ->
+  Proofs.NullMap.null_map n d input ptx ->
+  exists scs per,
+    remap repaired g prefix (n, d) input ptx = Ok (mkOut [mkOutAsm None true scs] 0 0 0 per)
+    /\ Forall (fun p => snd p = (0, 0)) per
+    /\ Permutation (map (fun sc => (sc_name sc, map Proofs.NullMap.erase_id (sc_rows sc))) scs)
+                   (map (fun p => (fst p, map Proofs.NullMap.erase_id (snd p))) input)
+    /\ Forall (fun sc => sc_tag sc = None /\ sc_hap sc = None /\ sc_rank sc = 3) scs.
+Proof. exact Proofs.NullMap.null_map_identity. Qed.
+Print Assumptions C08_null_map_identity.
+
+(* the hypotheses are satisfiable: three scaffolds, the middle one absent from
+   the map and containing two consecutive gap rows, a reverse-strand contig *)
+Theorem C08_hypotheses_satisfiable :
+  Proofs.NullMap.ok_input <> [] /\ NoDup (map fst Proofs.NullMap.ok_input)
+  /\ Forall Proofs.NullMap.sc_ok Proofs.NullMap.ok_input
+  /\ NoDup (map key_of (flat_map (fun p => frags_of (snd p)) Proofs.NullMap.ok_input))
+  /\ Proofs.NullMap.null_map 10 1 Proofs.NullMap.ok_input Proofs.NullMap.ok_ptx
+  /\ ~ Proofs.NullMap.no_gap_pair (snd (nth 1 Proofs.NullMap.ok_input ([], []))).
+Proof. exact Proofs.NullMap.null_map_hypotheses_satisfiable. Qed.
+Print Assumptions C08_hypotheses_satisfiable.
+
+(* before the fix: commit the re-adding of an absent scaffold kept only the
+   last gap of a run of consecutive gap rows, so the identity failed *)
+Theorem C08_legacy_refuted :
+  0 <= 10 /\ 0 < 1 /\ Proofs.NullMap.cex_input <> []
+  /\ NoDup (map fst Proofs.NullMap.cex_input) /\ Forall Proofs.NullMap.sc_ok Proofs.NullMap.cex_input
+  /\ NoDup (map key_of (flat_map (fun p => frags_of (snd p)) Proofs.NullMap.cex_input))
+  /\ Proofs.NullMap.null_map 10 1 Proofs.NullMap.cex_input Proofs.NullMap.cex_ptx
+  /\ exists o, remap (mkCfg true true true true false) (mkGap 200 (s "scaffold")) (s "SUPER_") (10, 1)
+                     Proofs.NullMap.cex_input Proofs.NullMap.cex_ptx = Ok o
+     /\ map (fun sc => (sc_name sc, map Proofs.NullMap.erase_id (sc_rows sc))) (flat_map oa_scaffolds (out_asms o))
+        = [ (s "scaffold_1", [Proofs.NullMap.cex_F "ctg1" 1 100 1; RG (mkGap 50 (s "scaffold")); Proofs.NullMap.cex_F "ctg2" 1 200 (-1)]);
+            (s "scaffold_2", [Proofs.NullMap.cex_F "ctg3" 1 5 1; RG (mkGap 3 (s "y")); Proofs.NullMap.cex_F "ctg4" 1 3 1]) ].
+Proof. exact Proofs.NullMap.null_map_legacy_refuted. Qed.
+Print Assumptions C08_legacy_refuted.
 
 (* a bait [1, E] whose end lies inside or beyond the last row of a scaffold
    without terminal gaps returns ALL its rows, with start 1 and end = length *)
